@@ -211,8 +211,8 @@ func relInstances(tier string) []Instance {
 
 func init() {
 	register(&Check{ID: "C04",
-		Rule: "one server; connection 1 issues every triple of requests over 6 handler behaviours {return, gate-then-return, release+gate, release x3+gate, release from a helper goroutine+gate, never release}; optionally a second client connection with two plain requests; server receive buffer {0,2}; the script opens the gates in every order at quiescent points; all schedules within the deviation bound; oracle on the per-connection event log: no handler starts while an earlier one of its connection is unreleased, replies of released handlers reach their own call, a never-releasing handler blocks only its own connection; an outcome is (instance, gate order)",
-		Gen:  relInstances,
+		Rule:        "one server; connection 1 issues every triple of requests over 6 handler behaviours {return, gate-then-return, release+gate, release x3+gate, release from a helper goroutine+gate, never release}; optionally a second client connection with two plain requests; server receive buffer {0,2}; the script opens the gates in every order at quiescent points; all schedules within the deviation bound; oracle on the per-connection event log: no handler starts while an earlier one of its connection is unreleased, replies of released handlers reach their own call, a never-releasing handler blocks only its own connection; an outcome is (instance, gate order)",
+		Gen:         relInstances,
 		Assumptions: []string{"transport is the fakegrpc model; requests are issued as async quorum calls on a one-node configuration so that several can be outstanding"},
 	})
 }
